@@ -140,6 +140,8 @@ class Sim:
         self.gc_density = self.config.get("gc_density", 0.3)
         self.repack_outcome = self.config.get("h5repack", "absent")  # absent | ok | fail
         self.poison = self.config.get("poison")
+        if isinstance(self.poison, str):     # "nan" / "inf" / "-inf" / "1e300": replay files are plain JSON
+            self.poison = float(self.poison)
         self.warnings: list[str] = []
         self._line_budget = 0
         self._line_count = 0
